@@ -203,6 +203,15 @@ def run(scn):
     from pysmi.reader.localfile import FileReader
     from pysmi.reader.url import getReadersFromUrls
     from pysmi.reader.zipreader import ZipReader
+    if scn.get('late'):
+        # a file cannot appear where a directory is (kept out by the generator; a hand-edited or minimised scenario may differ)
+        dirs_ = set(scn.get('empty_dirs', []))
+        for e_ in scn['tree']:
+            p_ = os.path.dirname(e_['path'])
+            while p_:
+                dirs_.add(p_)
+                p_ = os.path.dirname(p_)
+        scn = dict(scn, late=[e_ for e_ in scn['late'] if e_['path'] not in dirs_ and not any(e_['path'].startswith(d_ + '/') and d_ in [x['path'] for x in scn['tree']] for d_ in [os.path.dirname(e_['path'])])])
     root = core.new_root('c14')
     viol = []
 
@@ -614,7 +623,8 @@ def generate(rng, tier):
                 d0 = (rng.choice(have) + '/' + rng.choice(['late', 'late/er'])) if have and rng.random() < 0.7 else rng.choice(['fresh', 'fresh/deep', 'sub/new', ''])
                 base = rng.choice(cands) if rng.random() < 0.8 else rng.choice(near)
                 path = (d0 + '/' if d0 else '') + base
-                if any(p.startswith(path + '/') or path.startswith(p + '/') for p in used) or path in [x['path'] for x in late]:
+                if any(p.startswith(path + '/') or path.startswith(p + '/') for p in used) or path in [x['path'] for x in late] \
+                        or any(path == d_ or path.startswith(d_ + '/') for d_ in scn.get('empty_dirs', [])):
                     continue
                 late.append({'path': path, 'hex': _hex(gen_content(rng, 'late:' + path)), 'mtime': rng.choice(SEASONS) + 2 * rng.randrange(0, 600000)})
             if late:
